@@ -128,7 +128,15 @@ def build_state(app, rng):
 QUERIES = ['resources=VCPU:1', 'resources=VCPU:1,MEMORY_MB:64', 'resources=DISK_GB:10', 'resources=VCPU:1,DISK_GB:10',
            'resources1=VCPU:1&resources2=DISK_GB:5&group_policy=none', 'resources=VCPU:2&resources_D=DISK_GB:1&group_policy=none']
 # (microversion, queries usable there): limit exists from 1.16, numbered groups from 1.25, string suffixes from 1.33
-VERSIONED = [(39, QUERIES), (28, QUERIES[:5]), (17, QUERIES[:4])]
+# two groups asking the SAME class: below 1.34 (no "mappings" member) two requests that differ only in which group sits on
+# which provider look identical (recorded finding of C20, found by the proof of C20_code_limit)
+SAME_CLASS = 'resources1=VCPU:1&resources2=VCPU:1&group_policy=none'
+VERSIONED = [(39, QUERIES + [SAME_CLASS]), (33, QUERIES[:5] + [SAME_CLASS]), (28, QUERIES[:5]), (17, QUERIES[:4])]
+KNOWN_DUPS = []
+
+
+def strip_mappings(ar):
+    return json.dumps({k: v for k, v in ar.items() if k != 'mappings'}, sort_keys=True)
 
 
 def canon_ar(ar):
@@ -150,8 +158,19 @@ def http_stream(rng, n_states, seeds, viols, stats, samples):
                 fullset = set(full)
                 M = len(full)
                 stats['evaluations'] += 1
+                invisible = False
                 if len(fullset) != M:
-                    viols.append(({'kind': 'limit', 'query': q}, 'unlimited result contains duplicates'))
+                    # identical entries are the recorded finding iff the version shows no mappings and the same query at 1.39
+                    # returns as many requests, pairwise distinct by their mappings, with exactly these allocations
+                    later = app.request('GET', '/allocation_candidates?' + q, version='1.39', headers=SVC) if ver < 34 else None
+                    if later is not None and later.status == 200 \
+                            and len(set(canon_ar(a) for a in later.json['allocation_requests'])) == len(later.json['allocation_requests']) \
+                            and sorted(strip_mappings(a) for a in later.json['allocation_requests']) == sorted(
+                                strip_mappings(a) for a in base.json['allocation_requests']):
+                        invisible = True
+                        KNOWN_DUPS.append((ver, q, M, len(fullset)))
+                    else:
+                        viols.append(({'kind': 'limit', 'query': q, 'version': ver}, 'unlimited result contains duplicates'))
                 if M == 0:
                     continue
                 for limit in range(1, M + 2):
@@ -167,8 +186,10 @@ def http_stream(rng, n_states, seeds, viols, stats, samples):
                         where = {'kind': 'limit', 'query': q, 'version': ver, 'limit': limit, 'randomize': randomize, 'seed': seed, 'state_seed': si}
                         if len(got) != min(limit, M):
                             viols.append((where, 'limit=%d returned %d requests, unlimited has %d' % (limit, len(got), M)))
-                        if len(set(got)) != len(got):
+                        if len(set(got)) != len(got) and not invisible:
                             viols.append((where, 'limited result contains duplicates'))
+                        if invisible and any(got.count(x) > full.count(x) for x in set(got)):
+                            viols.append((where, 'limited result repeats a request more often than the unlimited result'))
                         if not set(got) <= fullset:
                             viols.append((where, 'limited result contains a request that is not in the unlimited result'))
                         named = {rp for a in r.json['allocation_requests'] for rp in a['allocations']}
@@ -240,6 +261,13 @@ def run(pid, tier, out):
     http_stream(rng, 2 if tier == 'quick' else 12, [1, 2, 3] if tier == 'quick' else list(range(1, 21)), viols, stats, samples)
     proof_broken = (not ps['ok']) or bool(hyg) or not ok_tr
     tie_broken = bool(disagreements) or corr_error is not None
+    if KNOWN_DUPS and any(f.get('kind') == 'known' and f.get('property') == 'C20' and f.get('match', {}).get('kind') == 'invisible-mapping-duplicates'
+                          for f in common.load_known()):
+        out.known_finding('below 1.34 (no mappings member) requests that differ only in which group sits on which provider are '
+                          'returned as identical entries: e.g. %s at 1.%d returns %d requests, %d distinct (%d answers of this run)'
+                          % (KNOWN_DUPS[0][1], KNOWN_DUPS[0][0], KNOWN_DUPS[0][2], KNOWN_DUPS[0][3], len(KNOWN_DUPS)))
+    elif KNOWN_DUPS:
+        viols.append(({'kind': 'limit', 'query': KNOWN_DUPS[0][1], 'version': KNOWN_DUPS[0][0]}, 'unlimited result contains duplicates'))
     seen = set()
     for payload, text in viols:
         if text in seen:
